@@ -1365,8 +1365,45 @@ def override(index, rep):
 # ------------------------------------------------------------------------------------------ C13.KEYS
 
 
+_SUBTABLE_PREFIX = {}
+
+
+def _subtable_prefixes(index):
+    """(method name, parameter) -> "K": every call of the method in src/ hands `<constants table>["K"]` over for that parameter, so what the
+    method reads from the parameter are entries of the sub-table K"""
+    if id(index) in _SUBTABLE_PREFIX:
+        return _SUBTABLE_PREFIX[id(index)]
+    from .core import bind_args
+    defs, calls = {}, {}
+    for rel in index.py_files("src"):
+        mod = index.module(rel)
+        for f_ in [n for n in ast.walk(mod) if isinstance(n, ast.FunctionDef)]:
+            defs.setdefault(f_.name, []).append(f_)
+        for c in [n for n in ast.walk(mod) if isinstance(n, ast.Call) and isinstance(n.func, ast.Attribute)]:
+            calls.setdefault(c.func.attr, []).append(c)
+    out = {}
+    for name, fs in defs.items():
+        if len(fs) != 1 or name not in calls or name.startswith("__"):
+            continue
+        fn = fs[0]
+        per_param = {}
+        for c in calls[name]:
+            for p_, a_ in bind_args(c, fn).items():
+                k_ = None
+                if isinstance(a_, ast.Subscript) and isinstance(a_.value, ast.Name) and a_.value.id in ("constants_for_params", "constants_inputs", "constants") \
+                        and str_const(a_.slice):
+                    k_ = str_const(a_.slice)
+                per_param.setdefault(p_, []).append(k_)
+        for p_, ks in per_param.items():
+            if ks and all(k == ks[0] and k is not None for k in ks):
+                out[(name, p_)] = ks[0]
+    _SUBTABLE_PREFIX[id(index)] = out
+    return out
+
+
 def reads_of(index, rel, dictnames):
     out = []
+    pre = _subtable_prefixes(index)
     for n in ast.walk(index.module(rel)):
         if isinstance(n, ast.Subscript) and isinstance(n.ctx, ast.Load):
             base, ks = key_chain(n)
@@ -1375,6 +1412,12 @@ def reads_of(index, rel, dictnames):
                 p = getattr(n, "_parent", None)
                 if isinstance(p, ast.Subscript) and p.value is n:
                     continue
+                # a parameter that every caller binds to one sub-table: the keys read are that sub-table's
+                f_ = p
+                while f_ is not None and not isinstance(f_, ast.FunctionDef):
+                    f_ = getattr(f_, "_parent", None)
+                if f_ is not None and (f_.name, base) in pre:
+                    ks = [pre[(f_.name, base)]] + list(ks)
                 out.append((".".join(ks), n))
     return out
 
